@@ -5,6 +5,7 @@ functions of the interpreter; the state is threaded through exceptions and
 dtml-return, so the statement covers every exit path.
 -/
 import DTML.Render
+import DTML.GenRender
 set_option linter.unusedVariables false
 namespace DTML.Props.C08
 open DTML.Render
@@ -1094,5 +1095,57 @@ theorem caller_continues (env : Env) (fuel : Nat) (body : List Blk) (hs : List (
   have h1 := (all_preserve env fuel).renderBlk (.try_ body hs els) st
   have h2 := (all_preserve env fuel).renderBlocks rest (renderBlk env fuel (.try_ body hs els) st).2
   exact ⟨h1.1, h1.2, h2.1.trans h1.1⟩
+
+/-! ### The push / pop sites of `dtml-let` and `dtml-with` are the ones of the source
+
+`GenRender.letBlockGen` / `withBlockGen` are regenerated on every run from `Let.render` / `With.render` in /repo
+(harness/trans_render.py: the dictionary pushed before the bindings are evaluated, each binding stored in it, the section
+rendered, `finally: md._pop(k)` with the `k` of the source; the with-object unwrapped / wrapped, the new TemplateDict of
+`only`, the push, the section, the pop).  They compute what `renderBlk` does for `.let_` / `.with_`, the cases
+`render_preserves_stack` above is proved about. -/
+
+private theorem letLoopGen_eq (env : Env) : ∀ (fuel : Nat) (binds : List (Text × Src)) (body : List Blk) (st : St),
+    GenRender.letLoopGen env fuel binds body st = letLoop env fuel binds body st := by
+  intro fuel
+  induction fuel with
+  | zero => intro binds body st; rfl
+  | succ f ih =>
+    intro binds body st
+    cases binds with
+    | nil => rfl
+    | cons p rest =>
+      obtain ⟨n, src⟩ := p
+      simp only [GenRender.letLoopGen, letLoop]
+      cases evalSrc env f src st with
+      | mk r st' =>
+        cases r with
+        | ok v => simp only [GenRender.cacheSet]; exact ih rest body _
+        | raise e => rfl
+        | ret v => rfl
+        | oom => rfl
+
+theorem gen_let_block_is_model (env : Env) (fuel : Nat) (binds : List (Text × Src)) (body : List Blk) (st : St) :
+    GenRender.letBlockGen env fuel binds body st = renderBlk env (fuel + 1) (.let_ binds body) st := by
+  simp only [GenRender.letBlockGen, renderBlk, letLoopGen_eq]
+
+private theorem pushedGen_eq (env : Env) (fuel : Nat) (fr : Frame) (body : List Blk) (st : St) :
+    GenRender.pushedGen env fuel fr body 1 st = framed env fuel fr body st := by
+  cases fuel with
+  | zero => rfl
+  | succ f =>
+    cases f with
+    | zero => simp [GenRender.pushedGen, framed, withFrame, joinRes]
+    | succ g => simp [GenRender.pushedGen, framed, withFrame]
+
+theorem gen_with_block_is_model (env : Env) (fuel : Nat) (src : Src) (mapping only : Bool) (body : List Blk) (st : St) :
+    GenRender.withBlockGen env fuel src mapping only body st = renderBlk env (fuel + 1) (.with_ src mapping only body) st := by
+  simp only [GenRender.withBlockGen, renderBlk, pushedGen_eq]
+  cases evalSrc env fuel src st with
+  | mk r st' =>
+    cases r with
+    | ok v => cases only <;> rfl
+    | raise e => rfl
+    | ret v => rfl
+    | oom => rfl
 
 end DTML.Props.C08
